@@ -1,6 +1,7 @@
 package main
 
 import (
+	"bufio"
 	"bytes"
 	"encoding/base64"
 	"encoding/json"
@@ -50,6 +51,7 @@ func yamlTrees(c *chk.Ctx, content string) (jsonv.M, jsonv.M, string) {
 type svcDoc struct {
 	svc   string
 	tree  jsonv.M // JSON rendering, refs split
+	raw   string  // the JSON rendering as emitted
 	event map[string]any
 }
 
@@ -123,7 +125,7 @@ func docsOf(c *chk.Ctx, set *plug.Set, b *abs.Built, s *abs.Schema, allFormats b
 			}
 		}
 		ev := map[string]any{"event": "Doc", "svc": svc, "tree": tree, "tmplVars": tv, "yamlEqJson": eq, "detail": detail, "formats": len(formats) + 1}
-		docs = append(docs, &svcDoc{svc: svc, tree: tree, event: ev})
+		docs = append(docs, &svcDoc{svc: svc, tree: tree, raw: f.Content, event: ev})
 		lines = append(lines, jsonLine(ev))
 	}
 	sort.Strings(names)
@@ -172,6 +174,74 @@ func opSchema(doc jsonv.M, rpc, dir, status string) jsonv.M {
 		}
 	}
 	return nil
+}
+
+// rawOpSchema is opSchema on the document as emitted: the schema is wrapped together with the
+// document's components so that "#/components/schemas/X" references resolve for the instrument.
+func rawOpSchema(raw string, rpc, dir, status string) map[string]any {
+	var doc map[string]any
+	if json.Unmarshal([]byte(raw), &doc) != nil {
+		return nil
+	}
+	paths, _ := doc["paths"].(map[string]any)
+	for _, item := range paths {
+		im, _ := item.(map[string]any)
+		for _, o := range im {
+			op, _ := o.(map[string]any)
+			if op == nil || op["operationId"] != rpc {
+				continue
+			}
+			var holder map[string]any
+			if dir == "request" {
+				holder, _ = op["requestBody"].(map[string]any)
+			} else {
+				rs, _ := op["responses"].(map[string]any)
+				holder, _ = rs[status].(map[string]any)
+			}
+			ct, _ := holder["content"].(map[string]any)
+			aj, _ := ct["application/json"].(map[string]any)
+			sch, ok := aj["schema"]
+			if !ok {
+				return nil
+			}
+			return map[string]any{"$schema": "https://json-schema.org/draft/2020-12/schema", "components": doc["components"], "allOf": []any{sch}}
+		}
+	}
+	return nil
+}
+
+// instrument runs jsonschema (Draft 2020-12, every keyword) over (schema, instance) pairs: the
+// specification's own validator interprets the structural keywords only.
+func instrument(c *chk.Ctx, jobs []map[string]any) map[int]bool {
+	var in bytes.Buffer
+	for _, j := range jobs {
+		b, _ := json.Marshal(j)
+		in.Write(b)
+		in.WriteByte('\n')
+	}
+	cmd := exec.Command("python3-vt", filepath.Join(plug.VerifDir(), "tools", "schema_check.py"))
+	cmd.Stdin = &in
+	var so, se bytes.Buffer
+	cmd.Stdout, cmd.Stderr = &so, &se
+	if err := cmd.Run(); err != nil {
+		c.Broken("schema_check.py (python3-vt with jsonschema) failed: %v %s", err, firstN(se.String(), 300))
+	}
+	valid := map[int]bool{}
+	sc := bufio.NewScanner(&so)
+	sc.Buffer(make([]byte, 1<<20), 1<<26)
+	for sc.Scan() {
+		var o struct {
+			ID    int  `json:"id"`
+			Valid bool `json:"valid"`
+		}
+		if json.Unmarshal(sc.Bytes(), &o) == nil {
+			valid[o.ID] = o.Valid
+		}
+	}
+	if len(valid) != len(jobs) {
+		c.Broken("instrument answered %d of %d", len(valid), len(jobs))
+	}
+	return valid
 }
 
 // checkC06 : wire JSON bodies validate against the generated OpenAPI.
@@ -305,6 +375,9 @@ func checkC06(c *chk.Ctx) {
 	}
 	var lines []string
 	var owner []int
+	var jobs []map[string]any
+	var jobLine []int
+	pend := map[int]map[string]any{}
 	evals := 0
 	for ci, oc := range cases {
 		if oc.skipped != "" {
@@ -325,10 +398,26 @@ func checkC06(c *chk.Ctx) {
 		for _, m := range oc.ex.Schema.Files[0].Messages {
 			hasCfg(m)
 		}
-		add := func(e map[string]any) {
+		rawCache := map[string]map[string]any{}
+		rawSch := func(dir, status string) map[string]any {
+			k := dir + "/" + status
+			if _, ok := rawCache[k]; !ok {
+				rawCache[k] = rawOpSchema(oc.doc.raw, "Do", dir, status)
+			}
+			return rawCache[k]
+		}
+		// the line is written once the instrument has given its verdict on (schema as emitted, body as sent)
+		add := func(e map[string]any, inst []byte) {
 			e["oneofCfg"] = oneofCfg
 			e["gap"] = ""
-			lines = append(lines, jsonLine(e))
+			e["instr"] = "n/a"
+			var instance any
+			if rs := rawSch(fmt.Sprint(e["dir"]), fmt.Sprint(e["status"])); rs != nil && inst != nil && json.Unmarshal(inst, &instance) == nil {
+				jobs = append(jobs, map[string]any{"id": len(jobs), "schema": rs, "instance": instance})
+				jobLine = append(jobLine, len(lines))
+			}
+			pend[len(lines)] = e
+			lines = append(lines, "")
 			owner = append(owner, ci)
 			evals++
 		}
@@ -340,7 +429,7 @@ func checkC06(c *chk.Ctx) {
 				if e["event"] == "Codec" && e["encOk"] == true {
 					jt, err := jsonv.ParseJSON(unb64s(e["jsonB64"]))
 					if err == nil && reqSch != nil {
-						add(map[string]any{"event": "Check", "rpc": "Do", "dir": "request", "status": "", "hasVal": true, "ok": true, "val": vt, "json": jt, "sch": reqSch})
+						add(map[string]any{"event": "Check", "rpc": "Do", "dir": "request", "status": "", "hasVal": true, "ok": true, "val": vt, "json": jt, "sch": reqSch}, unb64s(e["jsonB64"]))
 					}
 				}
 			}
@@ -348,7 +437,7 @@ func checkC06(c *chk.Ctx) {
 				if e["event"] == "Resp" && int(e["status"].(float64)) == 200 {
 					jt, err := jsonv.ParseJSON(unb64s(e["bodyB64"]))
 					if err == nil && okSch != nil {
-						add(map[string]any{"event": "Check", "rpc": "Do", "dir": "response", "status": "200", "hasVal": true, "ok": true, "val": vt, "json": jt, "sch": okSch})
+						add(map[string]any{"event": "Check", "rpc": "Do", "dir": "response", "status": "200", "hasVal": true, "ok": true, "val": vt, "json": jt, "sch": okSch}, unb64s(e["bodyB64"]))
 					}
 				}
 			}
@@ -370,19 +459,37 @@ func checkC06(c *chk.Ctx) {
 				}
 				sch := opSchema(oc.doc.tree, "Do", "response", want)
 				if sch == nil {
-					add(map[string]any{"event": "Check", "rpc": "Do", "dir": "response", "status": want, "hasVal": false, "ok": false, "val": nullTree, "json": nullTree, "sch": nullTree})
+					add(map[string]any{"event": "Check", "rpc": "Do", "dir": "response", "status": want, "hasVal": false, "ok": false, "val": nullTree, "json": nullTree, "sch": nullTree}, nil)
 					continue
 				}
 				if err != nil {
 					jt = nullTree
 				}
-				add(map[string]any{"event": "Check", "rpc": "Do", "dir": "response", "status": want, "hasVal": false, "ok": err == nil, "val": nullTree, "json": jt, "sch": sch})
+				add(map[string]any{"event": "Check", "rpc": "Do", "dir": "response", "status": want, "hasVal": false, "ok": err == nil, "val": nullTree, "json": jt, "sch": sch}, unb64s(e["bodyB64"]))
 			}
 		}
 		if ci%16 == 0 {
 			c.AddSample(map[string]any{"fv": oc.ex.Fv, "modes": modes})
 		}
 	}
+	verdict := instrument(c, jobs)
+	nInvalid := 0
+	for id, ln := range jobLine {
+		if verdict[id] {
+			pend[ln]["instr"] = "valid"
+		} else {
+			pend[ln]["instr"] = "invalid"
+			nInvalid++
+		}
+	}
+	for ln, e := range pend {
+		lines[ln] = jsonLine(e)
+		if d := os.Getenv("VERIF_DEBUG_C06"); d != "" && fmt.Sprint(cases[owner[ln]].ex.Fv["construct"]) == d && e["hasVal"] == true {
+			jb, _ := json.Marshal(e["json"])
+			fmt.Fprintln(os.Stderr, "DEBUG", cases[owner[ln]].ex.Fv["context"], e["dir"], e["status"], e["instr"], firstN(string(jb), 600))
+		}
+	}
+	c.Infof("instrument (jsonschema, Draft 2020-12, all keywords): %d bodies against the operation schemas as emitted, %d invalid", len(jobs), nInvalid)
 	r := runInventory(c, "Trace_OpenApi", "Trace_OpenApi.cfg", lines, map[string]string{"Enforce": `{"C06"}`})
 	accepted, bad := 0, 0
 	table := map[string]int{}
